@@ -59,6 +59,7 @@ def run(tier):
     res.obligations += r7.obligations
     res.discharged += r7.discharged
     res.floor("C13.R7", 8)
+    res.floor("C13.R8", 1)
     res.floor("C13.R1", 4)
     res.floor("C13.R2", 4 + 1)
     res.floor("C13.R3", 2)
@@ -98,6 +99,14 @@ def defaults(res, facts):
                     res.inst("C13.R1", "PasetoBuilder::default (interpreted whole): " + part)
             if not f.ok:
                 res.violate("C13.R1", f.where, f.construct, f.msg, file=f.file, line=f.line)
+        # a default stays until the caller supplies that very claim: set_claim(K) removes at most the default stored under K
+        sc = builder_sem.analyse_cached(facts, S.entry_points(facts)).get("(set_claim)", (None, None))[0]
+        for f in sc or []:
+            res.oblige(f.ok)
+            if f.ok:
+                res.inst("C13.R8", f.desc)
+            else:
+                res.violate("C13.R8", f.where, f.construct, f.msg, file=f.file, line=f.line)
         return
     bs = S.impl_fns(facts, r"^crate::prelude::paseto_builder::PasetoBuilder<'a, Version, Purpose>$", r"^core::default::Default$", "default")
     if len(bs) != 1:
